@@ -9,7 +9,17 @@
    Every theorem quantifies over ALL images [img] (byte lists) and ALL header tables
    that satisfy the boolean layout predicate — not over images made by an encoder:
    whatever lies between, before or after the records (padding, garbage, other
-   records, overlapping chains) is unconstrained, the displacements are arbitrary. *)
+   records, overlapping chains) is unconstrained, the displacements are arbitrary,
+   with ONE restriction that the standard itself makes: a next link of zero means
+   "no further record", so the layout predicates ([verdef_chain], [verdaux_chain],
+   [verneed_chain], [vernaux_chain] through [link_ok]) require a NON-ZERO vd_next /
+   vn_next on every entry that has a successor and a non-zero vda_next / vna_next on
+   every auxiliary that has a successor.  The link of the LAST entry and of the last
+   auxiliary of each chain stays free (zero or any garbage).  A chain in which a zero
+   link precedes further counted records is therefore outside the *_exact theorems;
+   what the reader does there when the zero link sits on the chain's last entry and
+   only the COUNT is too large is stated by the two *_ended_at_zero_link theorems
+   (behaviour of /repo commit eedb89f; C19 owns that finding). *)
 From PV Require Import Base.Fmt Base.Outcome Base.Enum Gen.ElfLayouts Spec.ElfGabi Spec.C15Versions
      Model.C15GnuVersions Proofs.ElfLayoutFacts Proofs.C15Proofs.
 Open Scope Z_scope.
@@ -34,7 +44,9 @@ Theorem C15_placed_anywhere : forall pre bs tail, placed (pre ++ bs ++ tail) (zl
 Proof. exact placed_app. Qed.
 Print Assumptions C15_placed_anywhere.
 
-(* ---- version definitions: entries and auxiliary chains in link order, names resolved ---- *)
+(* ---- version definitions: entries and auxiliary chains in link order, names resolved ----
+   [verdef_section_wf]: sh_info = number of entries; every non-last entry has vd_next <> 0 and every
+   non-last auxiliary vda_next <> 0 (last links free). *)
 Theorem C15_verdef_exact : forall le is64 img shdrs n defs,
   verdef_section_wf le img shdrs n defs = true ->
   file_verdef_versions le is64 img shdrs (Z.of_nat n) = Ok (map verdef_view defs)
@@ -42,7 +54,8 @@ Theorem C15_verdef_exact : forall le is64 img shdrs n defs,
 Proof. exact verdef_section_exact. Qed.
 Print Assumptions C15_verdef_exact.
 
-(* the same on the section object, for any header values *)
+(* the same on the section object, for any header values (same non-zero-link restriction, it is
+   part of [verdef_chain]) *)
 Theorem C15_verdef_chain_exact : forall le is64 img h st defs,
   sh_info h = zlen defs ->
   verdef_chain le img (sh_offset st) (sh_offset h) defs = true ->
@@ -50,7 +63,17 @@ Theorem C15_verdef_chain_exact : forall le is64 img h st defs,
 Proof. exact verdef_chain_exact. Qed.
 Print Assumptions C15_verdef_chain_exact.
 
-(* ---- version requirements ---- *)
+(* sh_info claims MORE entries than the chain holds and the chain's last entry carries vd_next = 0:
+   the walk yields exactly the entries up to and including that one, whatever follows in the image *)
+Theorem C15_verdef_ended_at_zero_link : forall le is64 img shdrs n defs,
+  verdef_section_ended_wf le img shdrs n defs = true ->
+  file_verdef_versions le is64 img shdrs (Z.of_nat n) = Ok (map verdef_view defs).
+Proof. exact verdef_section_ended. Qed.
+Print Assumptions C15_verdef_ended_at_zero_link.
+
+(* ---- version requirements ----
+   [verneed_section_wf]: sh_info = number of entries; every non-last entry has vn_next <> 0 and every
+   non-last auxiliary vna_next <> 0 (last links free). *)
 Theorem C15_verneed_exact : forall le is64 img shdrs n needs,
   verneed_section_wf le img shdrs n needs = true ->
   file_verneed_versions le is64 img shdrs (Z.of_nat n) = Ok (map verneed_view needs)
@@ -64,6 +87,12 @@ Theorem C15_verneed_chain_exact : forall le is64 img h st needs,
   verneed_iter_versions le is64 img h st = Ok (map verneed_view needs).
 Proof. exact verneed_chain_exact. Qed.
 Print Assumptions C15_verneed_chain_exact.
+
+Theorem C15_verneed_ended_at_zero_link : forall le is64 img shdrs n needs,
+  verneed_section_ended_wf le img shdrs n needs = true ->
+  file_verneed_versions le is64 img shdrs (Z.of_nat n) = Ok (map verneed_view needs).
+Proof. exact verneed_section_ended. Qed.
+Print Assumptions C15_verneed_ended_at_zero_link.
 
 (* ---- the version-symbol table: one (index, name) per dynamic symbol ---- *)
 Theorem C15_versym_exact : forall le is64 img shdrs n entries,
@@ -79,7 +108,8 @@ Theorem C15_versym_hidden_bit : forall v, versym_fits v = true ->
 Proof. exact versym_value_split. Qed.
 Print Assumptions C15_versym_hidden_bit.
 
-(* ---- resolving an index: the first entry in link order that carries it, else nothing ---- *)
+(* ---- resolving an index: the first entry in link order that carries it, else nothing ----
+   (same domain: non-zero next links on all non-last entries and auxiliaries) *)
 Theorem C15_verdef_get_version_exact : forall le is64 img shdrs n defs idx,
   verdef_section_wf le img shdrs n defs = true ->
   file_verdef_get_version le is64 img shdrs (Z.of_nat n) idx
@@ -115,7 +145,8 @@ Theorem C15_verneed_find_nothing : forall idx needs,
 Proof. exact verneed_find_none. Qed.
 Print Assumptions C15_verneed_find_nothing.
 
-(* ---- has_indexes: some auxiliary has an index assigned; the memoised second call agrees ---- *)
+(* ---- has_indexes: some auxiliary has an index assigned; the memoised second call agrees ----
+   (same domain: non-zero next links on all non-last entries and auxiliaries) *)
 Theorem C15_has_indexes_exact : forall le is64 img shdrs n needs,
   verneed_section_wf le img shdrs n needs = true ->
   file_verneed_has_indexes le is64 img shdrs (Z.of_nat n)
@@ -141,6 +172,16 @@ Definition ex_def_shdrs : list shdr :=
 Example C15_ex_verdef :
   verdef_section_wf false ex_def_img ex_def_shdrs 1 [ex_d0; ex_d1] = true
   /\ verdef_find 0x8002 [ex_d0; ex_d1] = Some ex_d1 /\ verdef_find 2 [ex_d0; ex_d1] = None.
+Proof. vm_compute. auto. Qed.
+
+(* the same image under a header whose sh_info claims 5 entries: ex_d1's zero vd_next ends the walk.
+   And a zero link in front of a counted successor is NOT a well-formed chain. *)
+Definition ex_def_shdrs5 : list shdr :=
+  [mk_shdr 0 0 0 0 0 0; mk_shdr SHT_GNU_verdef 16 80 0 2 5; mk_shdr SHT_STRTAB 0 14 0 0 0].
+Example C15_ex_verdef_ended :
+  verdef_section_ended_wf false ex_def_img ex_def_shdrs5 1 [ex_d0; ex_d1] = true
+  /\ verdef_section_wf false ex_def_img ex_def_shdrs5 1 [ex_d0; ex_d1] = false
+  /\ link_ok (vd_next ex_d1) [ex_d1] = false.
 Proof. vm_compute. auto. Qed.
 
 (* little-endian requirements: one file whose first auxiliary lies 14 garbage bytes behind the entry,
